@@ -28,11 +28,15 @@ def gen_cases(rng, tier):
         cases.append({"digest": rng.choice(["md5", "sha1", "sha256"]), "key": rng.choice(KEYS), "vi": rng.randrange(len(VALUES)),
                       "mut": m, "pos": rng.random(), "pos2": rng.random(), "byte": rng.choice(SUBS + [rng.randrange(256)]), "vj": rng.randrange(len(VALUES)),
                       "key2": rng.choice(KEYS), "other_secret": rng.choice(["0ther", "S3CR3T", "s3cr3T", "s3cr3t ", "s3cr3"]), "via_url": rng.random() < 0.3})
+    for _ in range(n // 10):     # the same characters in the other letter case (a hex signature compared without regard to case would still verify)
+        cases.append({"digest": rng.choice(["md5", "sha1", "sha256"]), "key": rng.choice(KEYS), "vi": rng.randrange(len(VALUES)),
+                      "mut": rng.choice(["case_at", "case_header"]), "pos": rng.random() * 0.5, "pos2": 0, "byte": 0, "vj": 0, "key2": "k",
+                      "other_secret": "0ther", "via_url": False})
     if tier == "thorough":  # every position x substitution set, 3 blobs x 3 digests
         for dg in ("md5", "sha1", "sha256"):
             for vi in (0, 2, 4):
                 for pos in range(0, 110):
-                    for b in SUBS + ["flip", "inc"]:
+                    for b in SUBS + ["flip", "inc", "case"]:
                         cases.append({"digest": dg, "key": "k", "vi": vi, "mut": "subst_at", "pos": pos, "pos2": 0, "byte": b, "vj": 0, "key2": "k"})
     return cases
 
@@ -46,8 +50,16 @@ def _mutate(case, blob, other):
         if i >= n:
             return blob
         b = case["byte"]
-        b = blob[i] ^ 1 if b == "flip" else (blob[i] + 1) % 256 if b == "inc" else b
+        b = blob[i] ^ 1 if b == "flip" else (blob[i] + 1) % 256 if b == "inc" else bytes([blob[i]]).swapcase()[0] if b == "case" else b
         return blob[:i] + bytes([b]) + blob[i + 1:]
+    if m == "case_at":          # the first letter at or after position i, in the other case
+        for j in list(range(i, n)) + list(range(i)):
+            if bytes([blob[j]]).isalpha():
+                return blob[:j] + bytes([blob[j]]).swapcase() + blob[j + 1:]
+        return blob
+    if m == "case_header":      # the whole header (digest label and signature) in upper case
+        k = blob.index(b"_") if b"_" in blob else n
+        return blob[:k].upper() + blob[k:]
     if m == "subst": return blob[:i] + bytes([case["byte"]]) + blob[i + 1:]
     if m == "subst2":
         j = min(n - 1, int(case["pos2"] * n))
